@@ -275,11 +275,16 @@ func ZZ_C09_Decode(shape, alen, blen int) {
 	for _, in := range ins {
 		top.flds = append(top.flds, zzParse(in))
 	}
-	for round := 0; round < 2; round++ {
-		// the second round reuses the same Result with other values and lengths
+	for round := 0; round < 4; round++ {
+		// later rounds reuse the same Result: other values and lengths, then
+		// the first lengths again with EMPTY byte strings (cells left unassigned
+		// must not keep what an earlier log put there), then the first again
 		al, bl := alen, blen
-		if round == 1 {
+		switch round {
+		case 1:
 			al, bl = (alen+1)%3, (blen+31)%40
+		case 2:
+			bl = 0
 		}
 		val := zzGen(top, al, bl)
 		data := zzEnc(top, val)
